@@ -155,7 +155,8 @@ def implicit_absorbing(sh, rew):
         if s in out or not sh.avail[s]:
             continue
         if all(sh.rows[(s, a)].get(s, 0) == 1 for a in sh.avail[s]):
-            if all(bool(rew[(s, a, s)] == 0) for a in sh.avail[s]):
+            # only rewards of positive-probability outcomes count
+            if all(bool(rew[(s, a, ns)] == 0) for a in sh.avail[s] for ns, p in sh.rows[(s, a)].items() if p > 0):
                 out.add(s)
     return out
 
@@ -236,4 +237,7 @@ def proper_shapes():
     out.append(Shape(4, 2, [[0, 1], [0, 1], [0], [0]], {(0, 0): {1: H, 2: H}, (0, 1): {0: Q1, 3: Q3}, (1, 0): {3: 1}, (1, 1): {2: H, 0: Q1, 3: Q1},
                                                        (2, 0): {3: Q3, 2: Q1}, (3, 0): {3: 1}},
                      absorb=[3], gamma=F(1), s0={0: H, 1: Q1, 3: Q1}, name='p-four'))
+    # goal absorbing only implicitly; rows list zero-probability successors explicitly
+    out.append(Shape(3, 2, [[0, 1], [0, 1], [0]], {(0, 0): {1: 1, 2: 0}, (0, 1): {0: Q1, 2: Q3}, (1, 0): {2: 1, 0: 0}, (1, 1): {0: H, 2: H},
+                                                   (2, 0): {2: 1, 1: 0}}, absorb=[], gamma=F(1), name='p-three-implicit-zero'))
     return out
